@@ -359,15 +359,47 @@ func main() {
 		}
 		return true
 	})
-	// invalid listener groups
-	for _, bad := range []struct{ name, cf string }{
-		{"tls+tls-off", fmt.Sprintf("a.test:8443 {\n\ttls %s %s\n}\nb.a.test:8443 {\n\ttls off\n}\n", certs["a.test"][0], certs["a.test"][1])},
-		{"tls+http-scheme", fmt.Sprintf("a.test:8443 {\n\ttls %s %s\n}\nhttp://b.a.test:8443 {\n}\n", certs["a.test"][0], certs["a.test"][1])},
-		{"tls+no-tls-line", fmt.Sprintf("a.test:8443 {\n\ttls %s %s\n}\nb.a.test:8443 {\n\tstatus 204 /\n\ttls off\n}\n", certs["a.test"][0], certs["a.test"][1])},
-		{"plain-first-then-tls", fmt.Sprintf("b.a.test:8443 {\n\ttls off\n}\na.test:8443 {\n\ttls %s %s\n}\n*.test:8443 {\n\ttls off\n}\n", certs["a.test"][0], certs["a.test"][1])},
-		{"same-name-different-protocols", fmt.Sprintf("a.test:8443/p1 {\n\ttls %s %s {\n\t\tprotocols tls1.2 tls1.2\n\t}\n}\na.test:8443/p2 {\n\ttls %s %s {\n\t\tprotocols tls1.3\n\t}\n}\n", certs["a.test"][0], certs["a.test"][1], certs["a.test"][0], certs["a.test"][1])},
-		{"same-name-different-client-auth", fmt.Sprintf("a.test:8443/p1 {\n\ttls %s %s {\n\t\tclients %s\n\t}\n}\na.test:8443/p2 {\n\ttls %s %s\n}\n", certs["a.test"][0], certs["a.test"][1], caFile, certs["a.test"][0], certs["a.test"][1])},
-	} {
+	// invalid listener groups: every sequence of 2..3 sites on one port with at least one TLS and at least one
+	// plaintext site (written `tls off` or with the http:// scheme), in every order
+	type badCf struct{ name, cf string }
+	var bads []badCf
+	mixHosts := []string{"a.test", "b.a.test", "*.test"}
+	for n := 2; n <= 3; n++ {
+		total := 1
+		for i := 0; i < n; i++ {
+			total *= 3
+		}
+		for code := 0; code < total; code++ {
+			c, nT, nP := code, 0, 0
+			name, cf := "", ""
+			for i := 0; i < n; i++ {
+				k := c % 3
+				c /= 3
+				switch k {
+				case 0:
+					nT++
+					name += "T"
+					cf += fmt.Sprintf("%s:8443 {\n\ttls %s %s\n}\n", mixHosts[i], certs["a.test"][0], certs["a.test"][1])
+				case 1:
+					nP++
+					name += "O"
+					cf += fmt.Sprintf("%s:8443 {\n\ttls off\n}\n", mixHosts[i])
+				case 2:
+					nP++
+					name += "H"
+					cf += fmt.Sprintf("http://%s:8443 {\n}\n", mixHosts[i])
+				}
+			}
+			if nT > 0 && nP > 0 {
+				bads = append(bads, badCf{"mixed/" + name, cf})
+			}
+		}
+	}
+	bads = append(bads,
+		badCf{"tls+no-tls-line", fmt.Sprintf("a.test:8443 {\n\ttls %s %s\n}\nb.a.test:8443 {\n\tstatus 204 /\n\ttls off\n}\n", certs["a.test"][0], certs["a.test"][1])},
+		badCf{"same-name-different-protocols", fmt.Sprintf("a.test:8443/p1 {\n\ttls %s %s {\n\t\tprotocols tls1.2 tls1.2\n\t}\n}\na.test:8443/p2 {\n\ttls %s %s {\n\t\tprotocols tls1.3\n\t}\n}\n", certs["a.test"][0], certs["a.test"][1], certs["a.test"][0], certs["a.test"][1])},
+		badCf{"same-name-different-client-auth", fmt.Sprintf("a.test:8443/p1 {\n\ttls %s %s {\n\t\tclients %s\n\t}\n}\na.test:8443/p2 {\n\ttls %s %s\n}\n", certs["a.test"][0], certs["a.test"][1], caFile, certs["a.test"][0], certs["a.test"][1])})
+	for _, bad := range bads {
 		rep.Eval(1)
 		l, err := kit.Load(bad.cf, filepath.Join(dir, "Casketfile"))
 		if err == nil {
